@@ -33,7 +33,7 @@ RULE = (
     "cases: (workload w from a fixed generated family of 10, transport popen|socket, direction worker-dies|initiator-"
     "dies, cut offset n in [0, L(w,transport,direction)]) x schedule seed; thorough enumerates all n (coverage keys "
     "'enumerated_cut_points' / 'enumeration_complete'), quick samples; plus SIGKILL-at-sync-point and proxy-death "
-    "cases.  Non-trivial = the fault fired and the survivor had at least one observer; distinct = distinct event-log digests."
+    "cases (observer: drain, send, receive, join, waitclose, newchannel, remote_exec).  Non-trivial = the fault fired and the survivor had at least one observer; distinct = distinct event-log digests."
 )
 ASSUMPTIONS = [
     "bytes accepted by the simulated kernel before the writer dies stay readable (pipe/socket buffer semantics)",
